@@ -538,11 +538,11 @@ theorem id_counter_monotone :
 example : ThreadId.counterMonotone [("NewThreadID", "inc"), ("JoinAll", "assign")] = some false := by decide
 example : ThreadId.counterMonotone [("NewThreadID", "inc"), ("f", "unknown")] = none := by decide
 
-/-- The pool's constructor starts the id counter at a value ≥ 1 (regenerated:
-    `Ecal.Gen.C12.idCounterInit`, `none` = cannot tell): thread id 0 is never handed out. With
-    `tid = 0` the Go code would enter a released name without locking (`owner == tid`); the model
-    forbids thread 0 (`step s (.look 0 a) = none`). -/
-theorem id_counter_starts_positive : Ecal.Gen.C12.idCounterInit ≠ some 0 := by decide
+/-- The first thread id handed out is ≥ 1 (regenerated: `Ecal.Gen.C12.idFirst` = the constructor's
+    initial value of the counter, plus one if `NewThreadID` increments before it reads; `none` =
+    cannot tell): thread id 0 is never handed out. With `tid = 0` the Go code would enter a released
+    name without locking (`owner == tid`); the model forbids thread 0 (`step s (.look 0 a) = none`). -/
+theorem first_thread_id_positive : Ecal.Gen.C12.idFirst ≠ some 0 := by decide
 
 example (s : State) (a : Nat) : step s (.look 0 a) = none := by simp [step]
 
